@@ -517,11 +517,12 @@ class BaseSection(base.Sectionable):
         :param obj: Section or Property object.
         """
         if isinstance(obj, BaseSection):
+            self._check_no_cycle(obj)
             self._sections.append(obj)
-            obj._parent = self
+            self._adopt(obj)
         elif isinstance(obj, BaseProperty):
             self._props.append(obj)
-            obj._parent = self
+            self._adopt(obj)
         elif isinstance(obj, Iterable) and not isinstance(obj, str):
             raise ValueError("odml.Section.append: "
                              "Use extend to add a list of Sections or Properties.")
@@ -569,16 +570,17 @@ class BaseSection(base.Sectionable):
             if obj.name in self.sections:
                 raise ValueError("odml.Section.insert: "
                                  "Section with name '%s' already exists." % obj.name)
+            self._check_no_cycle(obj)
 
             self._sections.insert(position, obj)
-            obj._parent = self
+            self._adopt(obj)
         elif isinstance(obj, BaseProperty):
             if obj.name in self.properties:
                 raise ValueError("odml.Section.insert: "
                                  "Property with name '%s' already exists." % obj.name)
 
             self._props.insert(position, obj)
-            obj._parent = self
+            self._adopt(obj)
         else:
             raise ValueError("Can only insert sections and properties")
 
